@@ -35,6 +35,19 @@ add("C15",
     "full-data fitness as an abstract function of the genome; what ties it to bingo is the per-generation comparison. Axiom-free.",
     "Rocq/Coq proof (scan invariant) + differential correspondence + real predictor-island runs")
 
+add("C08",
+    "Coq theorems over an executable model of AgeFitness (while loop, index sampling as an oracle tape, removal-set scan with "
+    "early exit, in-place swaps), Tournament and DeterministicCrowding: the caller's list is only permuted and the result is a "
+    "prefix of it with target <= size <= input; every index a scan removes is NaN or dominated by a sampled index that survives "
+    "the scan (transitivity handles a dominator removed earlier in the same scan); a tournament winner is a least-fitness member "
+    "of its own sample; crowding replaces a parent only by its distance-paired strictly better child. Tied to bingo/selection by "
+    "replaying the recorded random draws of real calls through the model (compared inside Coq).",
+    "Trusted: Coq kernel; order embedding of fitness/age into Z; np.random.choice on a list picks list[i] for the indices drawn; "
+    "the harness. Not proved: that the truncated tail equals the union of the scans' removal sets (the swap-to-end index "
+    "argument) - that link is covered by the correspondence and by the oracle 'every dropped individual is NaN or dominated by a "
+    "survivor'. Probabilistic variants: membership/count by oracle only. Axiom-free.",
+    "Rocq/Coq proof (loop invariants over all tapes) + tape-replay correspondence")
+
 NOT_APPLICABLE = []
 def main():
     props = [json.loads(l)["id"] for l in open(os.path.join(HERE, "properties.jsonl"))]
